@@ -187,6 +187,40 @@ func (c *ocase) intVals() string {
 	return sb.String()
 }
 
+// intValsAmbiguous: the same body stands for different numbers under a signed and an unsigned
+// integer type of this case (int32 "02" = 1, uint8 "02" = 2).  The model's value map is keyed
+// by the body alone, so it cannot represent such a case: the Sum tie is skipped for it (the
+// vector-vs-sequential oracle is not).
+func (c *ocase) intValsAmbiguous() bool {
+	vals := map[string]int64{}
+	for _, o := range c.Objects {
+		for _, x := range o {
+			if x.T < 0 || x.F.Null || x.F.Cont {
+				continue
+			}
+			t := c.Types[x.T]
+			if t.Kind != "prim" {
+				continue
+			}
+			var v int64
+			switch {
+			case t.ID <= zed.IDUint64:
+				v = int64(zed.DecodeUint(x.F.Prim))
+			case t.ID >= zed.IDInt8 && t.ID <= zed.IDTime:
+				v = zed.DecodeInt(x.F.Prim)
+			default:
+				continue
+			}
+			h := HexAtom(x.F.Prim)
+			if w, ok := vals[h]; ok && w != v {
+				return true
+			}
+			vals[h] = v
+		}
+	}
+	return false
+}
+
 func kindClass(id int) int {
 	if id <= zed.IDUint64 {
 		return 0
